@@ -126,6 +126,11 @@ def replay(chk, data):
     case, r = res[0]
     hits = [m for m in r['monitors'] if m['prop'] == chk.prop]
     print(json.dumps(dict(monitors=r['monitors'], out=r.get('out'), end=r.get('end')), default=str)[:2000])
+    # a listed known finding met on the way (F35) is printed as such, not as a violation
+    known = {k[0]: k[1] for k in chk.known}
+    for m in [m for m in hits if keyfn(case, r, m) in known]:
+        print(f'KNOWN-FINDING: property={chk.prop} {known[keyfn(case, r, m)][:200]}')
+    hits = [m for m in hits if keyfn(case, r, m) not in known]
     if hits:
         print(f'VIOLATION property={chk.prop} replay=(replayed)')
         return 1
